@@ -270,6 +270,14 @@ def convention_case(ref, case):
             return ("field_value_wrong", f"{tag}: {f.name} = {got!r}, given {v!r}")
     if not (x == pos and pos == x) or hash(x) != hash(pos):
         return ("same_arguments_unequal", f"{tag} != the positionally built instance (or hashes differ)")
+    try:
+        rb = c.__new__(c, *x.__getnewargs__())
+        rb_ok = rb == x and sp.srepr(rb) == sp.srepr(x) and all(
+            type(getattr(rb, f.name)) is type(getattr(x, f.name)) and getattr(rb, f.name) == getattr(x, f.name) for f in fs)
+    except Exception:  # noqa: BLE001
+        rb_ok = False
+    if not rb_ok:
+        return ("new_of_getnewargs_not_identity", f"{tag}: cls.__new__(cls, *x.__getnewargs__()) does not reproduce x")
     if not U.attr_fields(c):
         r = x.func(*x.args)
         if r != pos or sp.srepr(r) != sp.srepr(pos):
